@@ -10,6 +10,8 @@ CONSTANTS
   Plans = {"whole"}
   Frames <- FramesTiny
   MaxFrames = 3
+  Pres = {"none"}
+  PushPays <- PushNone
 INIT MCInit
 NEXT MCNext
 INVARIANTS NeverFragmentedWithPing
